@@ -123,6 +123,16 @@ Definition tbl_ff : list entry := [
   ("ff_injections", a2 d_ff d_ff (fun s a => e_roff (ff_injections s a)));
   ("ff_cumulative_sum", a1 d_ff (fun f => e_rff (ff_cumulative_sum f)));
   ("ff_is_injective", a1 d_ff (fun f => e_res e_bool (ff_is_injective f)));
+  (* the PartialEq impls: structural equality of the representation *)
+  ("ff_eq", a2 d_ff d_ff (fun f g => e_bool (list_eqb Nat.eqb (table f) (table g) && Nat.eqb (target f) (target g))));
+  ("icf_eq", a2 d_icf d_icf (fun c d => e_bool (
+      list_eqb Nat.eqb (table (ic_sources c)) (table (ic_sources d)) && Nat.eqb (target (ic_sources c)) (target (ic_sources d))
+      && list_eqb Nat.eqb (table (ic_values c)) (table (ic_values d)) && Nat.eqb (target (ic_values c)) (target (ic_values d)))));
+  ("ics_eq", a2 d_ics d_ics (fun c d => e_bool (
+      list_eqb Nat.eqb (table (ic_sources c)) (table (ic_sources d)) && Nat.eqb (target (ic_sources c)) (target (ic_sources d))
+      && list_eqb Nat.eqb (ic_values c) (ic_values d))));
+  ("semi_eq", a2 d_nats d_nats (fun u v => e_bool (list_eqb Nat.eqb u v)));
+  ("arr_eq", a2 d_nats d_nats (fun u v => e_bool (list_eqb Nat.eqb u v)));
   ("ff_coequalizer", a3 d_backend d_ff d_ff (fun B f g => e_roff (ff_coequalizer B f g)));
   ("ff_coequalizer_universal", a3 d_backend d_ff d_ff (fun B q f => e_roff (ff_coequalizer_universal B q f)));
   ("coequalizer_universal", a3 d_backend d_ff d_nats
